@@ -73,16 +73,18 @@ fn observe(args: &[Sexp]) -> Option<Result<Observed, String>> {
     // RON of a trace costs ~40-120 us per op; the few giant traces (up to 700k ops) are replayed from
     // the in-memory trace instead of the round-tripped one
     let serde_skipped = trace.ops.len() > MAX_OPS_FOR_SERDE;
-    let round_trip = |text: Result<String, String>, parse: &dyn Fn(&str) -> Result<Trace<Vtx>, String>| -> Option<Result<Trace<Vtx>, String>> {
-        if serde_skipped { None } else { Some(text.and_then(|s| parse(&s))) }
+    let (via_ron, via_json): (Option<Result<Trace<Vtx>, String>>, Option<Result<Trace<Vtx>, String>>) = if serde_skipped {
+        (None, None)
+    } else {
+        (
+            Some(ron::to_string(&trace).map_err(|e| format!("to ron: {e}")).and_then(|s| ron::from_str(&s).map_err(|e| format!("from ron: {e}")))),
+            Some(
+                serde_json::to_string(&trace)
+                    .map_err(|e| format!("to json: {e}"))
+                    .and_then(|s| serde_json::from_str(&s).map_err(|e| format!("from json: {e}"))),
+            ),
+        )
     };
-    let via_ron = round_trip(ron::to_string(&trace).map_err(|e| format!("to ron: {e}")).and_then(|s| if serde_skipped { Ok(String::new()) } else { Ok(s) }), &|s| {
-        ron::from_str(s).map_err(|e| format!("from ron: {e}"))
-    });
-    let via_json = round_trip(
-        if serde_skipped { Ok(String::new()) } else { serde_json::to_string(&trace).map_err(|e| format!("to json: {e}")) },
-        &|s| serde_json::from_str(s).map_err(|e| format!("from json: {e}")),
-    );
     let replay = |t: &Trace<Vtx>| -> Result<(), String> { guarded(|| assert_interpreted_results(t, &direct, true)) };
     let t1 = t0.elapsed();
     let (replay_ron, replay_json) = if serde_skipped {
